@@ -2,6 +2,7 @@
   C02 — Any change to signed content or to the signature makes verification fail.   PowerShell part.
 -/
 import Relic.Proofs.PS
+import Relic.Proofs.PSUtf8
 import Relic.Props.C08_PS
 namespace Relic.Props.C02
 open Relic Relic.PS
@@ -14,13 +15,50 @@ theorem ps_hashed_injective_utf16 (a b : Bytes) (sa sb : Nat) (da db : Digest) (
     a.take da.textSize = b.take db.textSize := by
   rw [← (DigestPS_spec a sa da ea).stream16 ua, ← (DigestPS_spec b sb db eb).stream16 ub, hs]
 
-/-- **ps_hashed_injective (UTF-8, full statement, not proved).** For scripts that are valid UTF-8 the conversion to
-    UTF-16 loses nothing, so equal streams mean equal text. -/
-def ps_hashed_injective_utf8_full : Prop :=
-  ∀ (a b : Bytes) (sa sb : Nat) (da db : Digest), DigestPS a sa = .ok da → DigestPS b sb = .ok db →
-    da.utf16 = false → db.utf16 = false →
-    (∃ s : String, s.toUTF8.toList = a.take da.textSize) → (∃ s : String, s.toUTF8.toList = b.take db.textSize) →
-    da.hashed = db.hashed → a.take da.textSize = b.take db.textSize
+/-- **ps_hashed_is_utf16 (UTF-8).** For a script that is not UTF-16 and whose text in front of the signature block is
+    valid UTF-8 – the encoding of the characters `cs` – the stream fed to the hash is the UTF-16LE encoding of `cs`
+    (surrogate pairs above U+FFFF), although the code converts the text line by line: a line feed byte is always a
+    character of its own, so the division into lines never cuts a character. -/
+theorem ps_hashed_is_utf16 (a : Bytes) (sa : Nat) (da : Digest) (ea : DigestPS a sa = .ok da) (ua : da.utf16 = false)
+    (cs : List Char) (hv : a.take da.textSize = cs.flatMap String.utf8EncodeChar) :
+    da.hashed = cs.flatMap (fun c => encUnit c.val.toNat) :=
+  DigestPS_stream8 a sa da ea ua cs hv
+
+/-- **ps_hashed_injective (UTF-8)** (was `ps_hashed_injective_utf8_full`).  For scripts that are valid UTF-8 the
+    conversion to UTF-16 loses nothing (UTF-16 is a prefix code on Unicode scalar values), so equal streams mean equal
+    text, byte for byte.  `ps_invalid_utf8_collides` is the exact exception. -/
+theorem ps_hashed_injective_utf8 (a b : Bytes) (sa sb : Nat) (da db : Digest) (ea : DigestPS a sa = .ok da)
+    (eb : DigestPS b sb = .ok db) (ua : da.utf16 = false) (ub : db.utf16 = false)
+    (va : ∃ s : String, s.toUTF8.toList = a.take da.textSize) (vb : ∃ s : String, s.toUTF8.toList = b.take db.textSize)
+    (hs : da.hashed = db.hashed) : a.take da.textSize = b.take db.textSize := by
+  obtain ⟨ca, ha⟩ := isUtf8_of_string _ va
+  obtain ⟨cb, hb⟩ := isUtf8_of_string _ vb
+  have h1 := DigestPS_stream8 a sa da ea ua ca ha
+  have h2 := DigestPS_stream8 b sb db eb ub cb hb
+  have : ca = cb := enc16_inj ca cb (by rw [← h1, ← h2, hs])
+  rw [ha, hb, this]
+
+/-- the exact form: on valid UTF-8 the stream is a function of the text and determines it -/
+theorem ps_hashed_eq_iff_utf8 (a b : Bytes) (sa sb : Nat) (da db : Digest) (ea : DigestPS a sa = .ok da)
+    (eb : DigestPS b sb = .ok db) (ua : da.utf16 = false) (ub : db.utf16 = false)
+    (va : ∃ s : String, s.toUTF8.toList = a.take da.textSize) (vb : ∃ s : String, s.toUTF8.toList = b.take db.textSize) :
+    da.hashed = db.hashed ↔ a.take da.textSize = b.take db.textSize := by
+  refine ⟨ps_hashed_injective_utf8 a b sa sb da db ea eb ua ub va vb, fun h => ?_⟩
+  obtain ⟨ca, ha⟩ := isUtf8_of_string _ va
+  obtain ⟨cb, hb⟩ := isUtf8_of_string _ vb
+  rw [DigestPS_stream8 a sa da ea ua ca ha, DigestPS_stream8 b sb db eb ub cb hb]
+  have e1 := toUtf16_enc8 ca []
+  have e2 := toUtf16_enc8 cb []
+  simp only [List.append_nil, toUtf16] at e1 e2
+  rw [← e1, ← e2, ← ha, ← hb, h]
+
+/-- non-vacuity: two-line script with a two-byte, a three-byte and a four-byte character (é, €, U+1F600), no signature
+    block; the stream is the UTF-16LE text with a surrogate pair -/
+example : (∃ s : String, s.toUTF8.toList = [0xC3, 0xA9, 10, 0xE2, 0x82, 0xAC, 0xF0, 0x9F, 0x98, 0x80]) ∧
+    (match DigestPS [0xC3, 0xA9, 10, 0xE2, 0x82, 0xAC, 0xF0, 0x9F, 0x98, 0x80] 1 with
+     | .ok d => some (d.hashed, d.textSize, d.utf16) | _ => none) =
+      some ([0xE9, 0, 10, 0, 0xAC, 0x20, 0x3D, 0xD8, 0x00, 0xDE], 10, false) := by
+  refine ⟨(isUtf8_iff_string _).mp ⟨['é', '\n', '€', Char.ofNat 0x1F600], by decide⟩, by decide⟩
 
 /-- **ps_invalid_utf8_collides.** Without the validity hypothesis the statement is false, by the format's definition
     (scripts are digested as UTF-16): every invalid byte becomes U+FFFD, so two different byte strings that are not
